@@ -191,6 +191,9 @@ func (s scen) judge(e *sched.Exec) (string, string, *sched.Failure) {
 		if (s.rt == "restore-error" || s.rt == "init-error" || s.rt == "exit" || s.rt == "restore-error-bad-type") && res.Err == nil {
 			failf("3", "error-swallowed:"+s.rt, "the runtime reported a failure but the restore request succeeded")
 		}
+		if (s.rt == "restore-error" || s.rt == "init-error" || s.rt == "exit" || s.rt == "restore-error-bad-type") && errS == "Runtime.RestoreHookUserTimeout" {
+			failf("3", "error-reported-but-timeout:"+s.rt, "the runtime reported its failure well before the hook timeout, yet the restore request failed with the timeout error after %d ms instead of the runtime's error type", el/1e6)
+		}
 	}
 	return out, w.Render(false) + out, fail
 }
